@@ -12,15 +12,16 @@ CaseOK(c) == EnvelopeOK(c)
 
 VARIABLES i, bad, done
 tvars == <<i, bad, done>>
-TInit == i = 1 /\ bad = <<>> /\ done = FALSE
+\* the variables of the budget protocol model are not used here: frozen
+TInit == Init /\ i = 1 /\ bad = <<>> /\ done = FALSE
 Step == /\ i <= Len(Cases)
         /\ i' = i + 1
         /\ bad' = IF CaseOK(Cases[i]) THEN bad ELSE Append(bad, i)
-        /\ UNCHANGED done
+        /\ UNCHANGED <<done, vars>>
 TFinish == /\ i = Len(Cases) + 1 /\ ~done
            /\ done' = TRUE
            /\ WriteVerdict(bad)
-           /\ UNCHANGED <<i, bad>>
+           /\ UNCHANGED <<i, bad, vars>>
 TNext == Step \/ TFinish
-TSpec == TInit /\ [][TNext]_tvars
+TSpec == TInit /\ [][TNext]_<<tvars, vars>>
 =============================================================================
